@@ -31,12 +31,12 @@ P = {
          'Each comparison selector (selecteq..selectge, the four ranges, none/notnone, true/false, is/isnot) is executed from the '
          'real AST (selector -> selectop -> select -> FieldSelectView.__init__) and its where-closure is proved equal to the '
          'documented predicate under the Comparable contract (C04) for ALL cell and reference values; wiring of field/complement/'
-         'missing proved. The filter loops iterfieldselect / iterrowselect (a row is emitted iff the predicate holds, unchanged, in order; short rows per `missing`/complement) and iterrowslice (symbolic islice window: exactly rows start, start+step, ... < stop) are proved for all tables; itertail (deque window: exactly the last n rows) and iterselectusingcontext (row i kept iff query(row i-1, row i, row i+1); exactly one row of look-ahead) by inductive invariants; search and facet are carried by the bounded stand-in (tables <= 3 rows).',
+         'missing proved. The filter loops iterfieldselect / iterrowselect (a row is emitted iff the predicate holds, unchanged, in order; short rows per `missing`/complement) and iterrowslice (symbolic islice window: exactly rows start, start+step, ... < stop) are proved for all tables; itertail (deque window: exactly the last n rows) and iterselectusingcontext (row i kept iff query(row i-1, row i, row i+1); exactly one row of look-ahead) by inductive invariants; itersearch (single field: kept iff the pattern matches the text of the cell, regex engine uninterpreted) and facet (one selecteq over the original table per distinct value) as well; whole-row search and short rows in search (KF2) are carried by the bounded stand-in.',
          TB + ' Comparable is used through its contract (contracts/lib_order.py), itself discharged by C04.ladder.', TECH_D),
  'C01': (True, 'proof',
-         'Write-set obligations of the non-interference lemma: for every Table/IterContainer subclass of 28 modules (97 view classes) the set of view attributes and process-wide state written by __iter__ and the self-methods it reaches is computed from the real AST and must be empty or within the declared, justified set of the stateful views (sort caches, hash-join lookups, cache(), fromdicts(generator), clock); sort-cache generators proved not to read shared cache attributes. The stateful views are proved non-interfering by RELY/GUARANTEE for any number of live iterators and any schedule: CacheView.__iter__ (invariant: the shared cache is a prefix of the inner table; every reader yields exactly the inner rows, in order, whatever the others do) and DictsGeneratorView.__iter__ (shared generator + spill file with shared position: append only, position re-established before every write, every reader yields row(dict j) at step j); SortView.__iter__ / the three hash-join views are proved to hand each generator its own references (the cached objects themselves, one lookup per pass when cache is off).'
+         'Write-set obligations of the non-interference lemma: for every Table/IterContainer subclass of 28 modules (97 view classes) the set of view attributes and process-wide state written by __iter__ and the self-methods it reaches is computed from the real AST and must be empty or within the declared, justified set of the stateful views (sort caches, hash-join lookups, cache(), fromdicts(generator), clock); sort-cache generators proved not to read shared cache attributes. The stateful views are proved non-interfering by RELY/GUARANTEE for any number of live iterators and any schedule: CacheView.__iter__ (invariant: the shared cache is a prefix of the inner table; every reader yields exactly the inner rows, in order, whatever the others do) and DictsGeneratorView.__iter__ (shared generator + spill file with shared position: append only, position re-established before every write, every reader yields row(dict j) at step j); SortView.__iter__ / the three hash-join views are proved to hand each generator its own references (the cached objects themselves, one lookup per pass when cache is off); RandomTable.__iter__ draws only from its own generator seeded with the view\'s seed.'
          ' Bounded stand-in for the rest: ' 'All interleavings of next() on 2 (thorough: 3) live iterators with abandonment and a fresh pass, over the view constructors incl. the caching ones, vs the solo pass of an identical fresh view.',
-         TB + ' The non-interference lemma for stateless views (induction over schedules) and the rely/guarantee soundness argument (guarantee == rely) are stated, not machine-checked; interference is modelled at yield points (generators are not preempted); randomtable/dummytable are bounded only.', TECH_D),
+         TB + ' The non-interference lemma for stateless views (induction over schedules) and the rely/guarantee soundness argument (guarantee == rely) are stated, not machine-checked; interference is modelled at yield points (generators are not preempted); dummytable (KF1) is decided by the bounded check and the write-set obligation that reports it.', TECH_D),
  'C02': (True, 'proof',
          'Constructor half: 96 public constructors (transform, util) are executed symbolically from the real AST (function body + view __init__) on symbolic sources with a ghost pull counter: no iterator is obtained / no row read at construction (header row at most for natural joins and *all functions). Per-row half: every generator verified by the stateless-body rule (cut, stack, addfield, addrownumbers, header functions, convert, select, rowmap) carries the generic obligations "at most the header pulled before the first data row", "an iteration pulls no row besides its own", "no other source iterator drained" (no read-ahead, no materialisation, independent of the source length by construction).'
          ' Bounded stand-in for the rest: ' 'Instrumented sources count pulled rows: 0 at construction (<= header for the named exceptions), pulls for k output rows identical for 100- and 10000-row sources, for the streaming operator catalogue and compositions.',
@@ -59,8 +59,8 @@ P = {
          ' Bounded stand-in for the rest (compound keys, agreement with the merge joins, dictlookup/recordlookup): ' 'Hash joins vs the relational reference and vs their sort-merge twins, cache on/off, two passes, streamed-side order; lookup family vs a reference dict incl. strict.',
          TB + ' dict through its contract (T6: keys modulo ==/hash, insertion order irrelevant to the claims); counting lemmas proved by induction (C07.cnt.lemmas); single key field in the proved part.', TECH_D),
  'C08': (True, 'proof',
-         'iterhashcomplement (strict and non-strict) and iterhashintersection (real AST) are proved for ALL pairs of tables with the hybrid rule over a symbolic Counter and ghost counting functions occA / cntB: the carried invariant is bcnt[v] = max(0, cntB(v) - occA(v, i)) (strict: = cntB(v)) for every value v, and row i of a is emitted, once and unchanged, iff occA(i) >= cntB(a[i]) (complement), cntB(a[i]) == 0 (strict), occA(i) < cntB(a[i]) (intersection): a\'s order, multiset a - b / a & b, and complement + intersection partition a because the keep-predicates are complementary; b is never written (C03), header of a first. The SORT-based itercomplement (strict and non-strict) and iterintersection merge loops are proved with the same keep-predicates for all pairs of sorted tables: inductive invariant (every consumed b-row <= the current a-row; #consumed b-rows equal to it = min(occA, cntB)), per-step judgements incl. the step that leaves the loop and the rows left over when b runs out; the sorts that establish the precondition are wired on the whole row with the caller\'s strategy arguments (C11.wiring.complement / intersection / diff).'
-         ' Bounded stand-in for the rest (diff as two complements, recordcomplement/recorddiff field alignment, agreement of the hash and sort variants end to end): ' 'complement/intersection/diff/record*/hash* vs collections.Counter arithmetic for all pairs of small rectangular tables; partition law.',
+         'iterhashcomplement (strict and non-strict) and iterhashintersection (real AST) are proved for ALL pairs of tables with the hybrid rule over a symbolic Counter and ghost counting functions occA / cntB: the carried invariant is bcnt[v] = max(0, cntB(v) - occA(v, i)) (strict: = cntB(v)) for every value v, and row i of a is emitted, once and unchanged, iff occA(i) >= cntB(a[i]) (complement), cntB(a[i]) == 0 (strict), occA(i) < cntB(a[i]) (intersection): a\'s order, multiset a - b / a & b, and complement + intersection partition a because the keep-predicates are complementary; b is never written (C03), header of a first. The SORT-based itercomplement (strict and non-strict) and iterintersection merge loops are proved with the same keep-predicates for all pairs of sorted tables: inductive invariant (every consumed b-row <= the current a-row; #consumed b-rows equal to it = min(occA, cntB)), per-step judgements incl. the step that leaves the loop and the rows left over when b runs out; the sorts that establish the precondition are wired on the whole row with the caller\'s strategy arguments (C11.wiring.complement / intersection / diff); diff = the two complements over one sort of each input, recordcomplement = complement(a, cut(b, *header(a))) -- b\'s fields selected BY NAME in a\'s order -- and recorddiff = the two recordcomplements, with strict and the strategy handed through.'
+         ' Bounded stand-in for the rest (agreement of the hash and sort variants and of the record forms end to end): ' 'complement/intersection/diff/record*/hash* vs collections.Counter arithmetic for all pairs of small rectangular tables; partition law.',
          TB + ' collections.Counter through its contract (T6); row equality = Python tuple equality, read as Comparable equality in the merge proofs (rows without nested sequences); sortedness of the inputs is the contract of the sort (C05).', TECH_D),
  'C09': (True, 'proof',
          "Group-level proof for all tables: the keyed drivers itersimpleaggregate, itermultiaggregate (rows-aggregate and field-aggregate forms), iterfold and iterrowreduce emit exactly one row per group delivered by rowgroupby, carrying the unwrapped key and the aggregation / reduce applied to exactly the values of that group's rows, in order, output fields in the order given; header once; key-less aggregation of an empty table is the documented single row (C20 instances). The groups themselves: itertools.groupby through its contract T2 (consecutive maximal runs of == keys, whose concatenation is the input: every row in exactly one group) over the key-sorted input (sort kernel C05, key function C04.comparable_itemgetter, wiring C11.wiring.aggregate/rowreduce/fold/groupselect*/mergeduplicates: every operator sorts on its own key with the caller's strategy)."
@@ -75,21 +75,21 @@ P = {
          ' Bounded stand-in for the result-equality clause (same header, rows and order as the default call) and the cache histories: Every sort-backed operator x buffersize x cache x tempdir x config.sort_buffersize x presorted vs the default call; cache clause over (edit, iterate) histories with pull counting.',
          TB + ' The k-way merge of the chunks (T5) is trusted / bounded, so equality of the ORDER of equal-key rows across strategies is decided by the bounded check only.', TECH_D),
  'C12': (True, 'proof',
-         'asindices is proved with an inductive loop invariant for any number of selectors (indices in range) and exactly for 1-2 selectors; itercut, iterstack, iteraddfield, iteraddrownumbers, setheader/extendheader/pushheader are proved cell-exact per data row by the stateless-body rule for all tables, row lengths, indices and flags (one output row per input row, only the requested cells change, padding/trimming as documented, no IndexError); iterfieldconvert.transform_row proved per cell; itercutout (ordered-complement model of the kept indices), itervalues, iteraddfields and iteraddcolumn (zip_longest rule: both run-out cases, default position = the new field) likewise; the converter forms methodcaller / dictconverter are proved against their definitions.'
+         'asindices is proved with an inductive loop invariant for any number of selectors (indices in range) and exactly for 1-2 selectors; itercut, iterstack, iteraddfield, iteraddrownumbers, setheader/extendheader/pushheader are proved cell-exact per data row by the stateless-body rule for all tables, row lengths, indices and flags (one output row per input row, only the requested cells change, padding/trimming as documented, no IndexError); iterfieldconvert.transform_row proved per cell; itercutout (ordered-complement model of the kept indices), itervalues, iteraddfields and iteraddcolumn (zip_longest rule: both run-out cases, default position = the new field), iterannex (two tables side by side, each squared up to its own header), iterfilldown (ghost function: nearest non-missing value above) and iterfillright / iterfillleft (nested rule with an inductive invariant over the cells of a row) likewise; the converter forms methodcaller / dictconverter are proved against their definitions.'
          ' Bounded stand-in for the rest: ' 'Every field/row transform of the statement vs a cell-by-cell reference over positional tables with ragged rows, duplicate names, all selections and insertion indices.',
          TB + ' asindices contract used modularly; stateless-body composition is the engine meta-theorem.', TECH_D),
  'C14': (True, 'exploration',
          'Reshape round trips (melt/recast, transpose, flatten/unflatten, dicts/columns) and cell-exact expansion operators over all small rectangular tables, key/variable splits, periods.'
-         ' Proved sub-claim (does not decide the round-trip clauses): ' 'Streaming half proved for all tables: itermelt (nested stateless rule) emits for every (row, variable) pair exactly one row = key cells + variable name + that cell, or nothing when the row is too short, under the header key fields + variable + value; FlattenView emits every data cell once, row-major; UnflattenView cuts the values into consecutive windows of `period` (tiling proved, last window padded, a full last window not lost); itersplit / itercapture / itersplitdown expand exactly the addressed cell (regex engine as an uninterpreted function) and carry every other cell over in place; pivot is wired to sort on (f1, f2). The round trips (melt/recast, transpose, dicts/columns), the pivot loop, unpack/unpackdict are NOT proved.',
+         ' Proved sub-claim (does not decide the round-trip clauses): ' 'Streaming half proved for all tables: itermelt (nested stateless rule) emits for every (row, variable) pair exactly one row = key cells + variable name + that cell, or nothing when the row is too short, under the header key fields + variable + value; FlattenView emits every data cell once, row-major; UnflattenView cuts the values into consecutive windows of `period` (tiling proved, last window padded, a full last window not lost); itersplit / itercapture / itersplitdown (regex engine as an uninterpreted function), iterunpack (first n values, padded) and iterunpackdict (one cell per key, `missing` when the lookup fails) expand exactly the addressed cell and carry every other cell over in place; pivot is wired to sort on (f1, f2). The round trips (melt/recast, transpose, dicts/columns) and the recast / pivot loops are NOT proved.',
          BNOTE + ' recast/pivot are two-pass algorithms with sampling and nested groupby; regular expressions are opaque.', TECH_D),
  'C15': (True, 'proof',
-         "csv and pickle glue as typestate proofs over the effect trace on every path (every I/O call may raise): _writecsv and CSVView open in the right mode, wrap with the SAME encoding/errors and newline='', hand the caller's csv arguments over unchanged, write/yield each row exactly once in order, write the header iff asked, flush before detach, detach and close on every exit; _writepickle dumps each row independently with the caller's protocol; the eight public csv/tsv front ends are proved to hand reader and writer the SAME format arguments (the caller's plus one family default dialect), so that what one side writes the other reads."
+         "csv and pickle glue as typestate proofs over the effect trace on every path (every I/O call may raise): _writecsv and CSVView open in the right mode, wrap with the SAME encoding/errors and newline='', hand the caller's csv arguments over unchanged, write/yield each row exactly once in order, write the header iff asked, flush before detach, detach and close on every exit; _writepickle dumps each row independently with the caller's protocol; the eight public csv/tsv front ends are proved to hand reader and writer the SAME format arguments (the caller's plus one family default dialect), so that what one side writes the other reads; _writetext and tohtml (open/wrap/prologue or _write_begin/one write per row/epilogue or _write_end/flush/detach on every path), the readers TextView (one row per line, the file only iterated: never read()/readlines()) and PickleView (one load per row, until EOFError), and MemorySource.open ('w' always starts from a NEW EMPTY buffer, 'a' keeps it) are proved the same way."
          ' Bounded stand-in for the rest: ' 'to*/append*/from* round trips over a hostile cell alphabet x encodings x csv dialect arguments x source kinds x header flags; bytes of to+append == to(cat).',
-         TB + ' T7: the standard library (csv, codecs, TextIOWrapper, pickle, gzip, bz2) is lossless for matching arguments; json and the byte-level round trips are bounded only.', TECH_D),
+         TB + ' T7: the standard library (csv, codecs, TextIOWrapper, pickle, gzip, bz2) is lossless for matching arguments; json, xml/xlsx-style sources and the byte-level round trips are bounded only.', TECH_D),
  'C16': (True, 'proof',
-         'TeeCSVView and TeePickleView are proved transparent (each row yielded once, unchanged, in order) and to issue exactly the event trace of _writecsv / _writepickle (same prologue, one write per row, header iff write_header, flush, detach/close on every exit).'
+         'TeeCSVView, TeePickleView, teetext and TeeHTMLView are proved transparent (each row yielded once, unchanged, in order) and to issue exactly the event trace of _writecsv / _writepickle (same prologue, one write per row, header iff write_header, flush, detach/close on every exit).'
          ' Bounded stand-in for the rest: ' 'Pass-through views yield exactly the wrapped rows; tee targets byte-identical to to*; cache() under all pass schedules and interleavings.',
-         TB + ' T7; ProgressViewBase / ClockView / TableWrapper proved pass-through by a shape analysis of their __iter__ (every source row yielded exactly once, unchanged, nothing else yielded); cache(): CacheView.__iter__ proved transparent for every n and every pass by rely/guarantee (C16.CacheView.rg.*); teetext/teehtml are bounded only.', TECH_D),
+         TB + ' T7; ProgressViewBase / ClockView / TableWrapper proved pass-through by a shape analysis of their __iter__ (every source row yielded exactly once, unchanged, nothing else yielded); cache(): CacheView.__iter__ proved transparent for every n and every pass by rely/guarantee (C16.CacheView.rg.*); _iterteetext and TeeHTMLView.__iter__ are proved to issue exactly the writes of totext / tohtml (same helpers, same arguments, same order) and to yield each row after its own write.', TECH_D),
  'C17': (True, 'proof',
          'Typestate proof over the effect trace: todb/appenddb/_todb/_todb_dbapi_{connection,cursor,mkcurs} are executed from the real AST on EVERY path with every external call (connect, cursor, execute, executemany, close, commit) and every source next() allowed to raise; on each path: no commit when an exception escapes, at most one commit and only after executemany completed, commit=False never commits, DELETE+INSERT+commit on one connection, petl-opened connections opened transactional and closed last, caller handles never closed, header consumed before any statement.'
          ' Bounded stand-in for the rest: ' 'sqlite3: prior contents x source failure at every row index x handle kind x commit flag for todb/appenddb, observed through a fresh connection; fromdb(todb(t)) == t.',
